@@ -27,6 +27,7 @@ DEFAULT = {
     "p_q": 0.3,            # second filter-restricted state q
     "p_b_in_filter": 0.3,  # the filter also restricts the discrete choice b
     "p_reduction_aux": 0.2,   # an auxiliary function written as jnp.sum(jnp.array([...])), used by utility only
+    "p_state_only_filter": 0.15,  # the filter restricts states only: no restricted choice, every discrete choice unrestricted
     "p_choice_filter": 0.25,  # an additional filter over the restricted choice a (and the period) only
     "p_state_filter": 0.2, # additional filter on the state r alone
     "p_b": 0.5,            # unfiltered discrete choice b
@@ -179,6 +180,9 @@ def _rand_model_once(rng, P):  # noqa: C901, PLR0912, PLR0915
         feat["F15"] = per_filter
         fstates = ["r"] + (["q"] if has_q else [])
         fchoices = ["a"] + (["b"] if (has_b and has("p_b_in_filter")) else [])
+        if has("p_state_only_filter"):
+            fchoices = []
+            feat["state_only_filter"] = True
         feat["two_restricted_states"] = has_q
         feat["two_restricted_choices"] = len(fchoices) == 2
         size = {"r": nr, "q": 2, "a": na, "b": nb}
@@ -186,12 +190,12 @@ def _rand_model_once(rng, P):  # noqa: C901, PLR0912, PLR0915
         ccombos = list(itertools.product(*[range(size[n]) for n in fchoices]))
         admitted = []      # per period: admitted combinations of the restricted states (tuples in the order of fstates)
         passing = []       # per period: set of (state combo, choice combo) that pass ALL filters
-        choice_filter = na >= 2 and has("p_choice_filter")
+        choice_filter = na >= 2 and bool(fchoices) and has("p_choice_filter")
         ok_a, loose = [], []   # per period: values of a the choice-only filter admits; what m_filter alone lets pass
         for t in range(T):
             if t == 0 or per_filter:
                 oka = sorted(rng.sample(range(na), rng.randint(1, na - 1))) if choice_filter else list(range(na))
-                cc_ok = [cc for cc in ccombos if cc[0] in oka]
+                cc_ok = [cc for cc in ccombos if not cc or cc[0] in oka]
                 while True:
                     adm = [sc for sc in scombos if rng.random() < 0.7 or P["all_admitted"]]
                     if adm:
@@ -201,7 +205,7 @@ def _rand_model_once(rng, P):  # noqa: C901, PLR0912, PLR0915
                     if not any((sc, cc) in ps for cc in cc_ok):
                         ps.add((sc, rng.choice(cc_ok)))
                 # m_filter alone also lets some combinations pass that the choice-only filter removes
-                lo = set(ps) | {(sc, cc) for sc in adm for cc in ccombos if cc[0] not in oka and rng.random() < 0.7}
+                lo = set(ps) | {(sc, cc) for sc in adm for cc in ccombos if cc and cc[0] not in oka and rng.random() < 0.7}
             admitted.append(adm)
             passing.append(ps)
             ok_a.append(oka)
